@@ -106,6 +106,14 @@ pub fn progress() {
     PROGRESS.fetch_add(1, std::sync::atomic::Ordering::Relaxed);
 }
 
+/// Set by the driver while it calls a reader again after its first error: faults delivered to those extra calls are
+/// still injected but no longer recorded as "the error the reader had to report" (`err_delivered`, `injected`).
+pub static PROBING: std::sync::atomic::AtomicBool = std::sync::atomic::AtomicBool::new(false);
+
+fn probing() -> bool {
+    PROBING.load(std::sync::atomic::Ordering::Relaxed)
+}
+
 /// Source operations (reads + seeks) a reader may issue on an input of `len` bytes before it is reported as spinning:
 /// the byte-wise readers need about one call per input byte.
 pub fn op_budget(len: usize) -> u64 {
@@ -178,8 +186,10 @@ impl Read for FaultSource {
                     return Err(io::Error::new(ErrorKind::Interrupted, "injected interrupt"));
                 }
                 "err" => {
-                    s.injected.push((call, format!("err:{}", f.err)));
-                    s.err_delivered = Some(f.err.clone());
+                    if !probing() {
+                        s.injected.push((call, format!("err:{}", f.err)));
+                        s.err_delivered = Some(f.err.clone());
+                    }
                     if self.script.sticky {
                         self.sticky_err = Some(f.err.clone());
                     }
